@@ -5,7 +5,8 @@ ENGINE = 'mirfacts+witness+genscan'
 EXPLANATION = ('Clause claim on type-checked MIR: (a) UTF-8 acceptance gates: patterns and subpatterns that are not Properties::is_utf8() are rejected in str mode, before the compile_error gate; '
                '(b) the NFA is built in UTF-8 mode exactly in str mode; (c) token_end has a closed, audited writer set (private fields, compile-fail witness): bump commits only after is_boundary(new), '
                'end_to_boundary commits find_boundary(x), which for str returns only positions that passed is_char_boundary and only moves forward, morph/clone copy; (d) the two unchecked slicing '
-               'sites use exactly span() and token_end..len. Not decided: that regex-automata\'s UTF-8 automata stop only on char boundaries for patterns that passed is_utf8.')
+               'sites use exactly span() and token_end..len. Not decided: that regex-automata\'s UTF-8 automata stop only on char boundaries for patterns that passed is_utf8.'
+               ' Since the E5 engine: the ends recorded by the generated code are the match ends of the reference automaton built by regex-automata in UTF-8 mode (G19 + G20 per definition).')
 
 
 def run(ctx, rep):
